@@ -23,9 +23,18 @@
    return without doing anything); inmemStore.SetPeerSet(0) (error ignored); then batches of 100
    topological events (dbTopologicalEvents scans topo_000000000, topo_000000001, ... until the first
    missing key): InsertEventAndRunConsensus each (first error aborts Bootstrap), then ProcessSigPool.
-   QUIRK kept: during Bootstrap Store.GetBlock still falls back to the DATABASE when the block is
-   not in the cache, so ProcessSigPool can attach a pending signature to a block of the previous
-   life that the replay has not re-created yet, and Store.SetBlock then raises LastBlockIndex.
+   During Bootstrap Store.GetBlock still falls back to the DATABASE when the block is not in the
+   cache.  Since fix d90db55 ProcessSigPool leaves a signature pending while its block index is above
+   Store.LastBlockIndex(), so that lookup can no longer reach a block of the previous life that the
+   replay has not re-created yet (before the fix Store.SetBlock then raised LastBlockIndex and the
+   re-delivered blocks were renumbered: the unguarded function is kept as [guard] = false for the
+   regression witness).  Since bc8842f Event.Verify refuses an event that carries a block signature
+   which keys.DecodeSignature cannot decode, so no malformed signature enters the pool through
+   InsertEvent (the harness reports such an event with [e_sigok] = false and the replay aborts on it,
+   as Bootstrap does); the branch of ProcessSigPool that now drops a malformed entry (1fe7ebb) instead
+   of returning is therefore not reachable from event-borne signatures, and a signature that decodes
+   but verifies against no body ([bs_over] = -2) stays pending in the code and in the model alike.
+   [sig_on_block] follows HgImpl.process_sig unchanged.
 
    Executable definitions only; no proofs in this file. *)
 From Coq Require Import ZArith List Bool.
@@ -108,9 +117,8 @@ Definition sig_on_block (st : hg) (s : bsig) (b : block) : hg :=
   end.
 
 (* state, and whether some block was taken from the database.
-   [guard] = false is the code as it stands.  [guard] = true models the patch proposed in
-   FINDINGS.md (ProcessSigPool leaves a signature pending while its block index is above
-   Store.LastBlockIndex()); it is used only to state that the patch restores the property. *)
+   [guard] = true is the code as it stands (d90db55: "if bs.Index > h.Store.LastBlockIndex() { continue }"
+   is the first statement of ProcessSigPool's loop); [guard] = false is ProcessSigPool before that fix. *)
 Definition boot_process_sig (guard : bool) (blk : zmap block) (acc : hg * bool) (s : bsig) : hg * bool :=
   let '(st, used) := acc in
   if guard && (st.(last_block) <? bs_index s) then acc else
@@ -177,6 +185,9 @@ Definition bootstrap (guard : bool) (self_ : Z) (genesis : peerset) (oracle_ : l
     if scan_ok then boot_loop (S (length evs)) guard d.(db_blk) st1 false evs
     else mkBoot st1 false false
   end.
+
+(* Hashgraph.Bootstrap as it stands *)
+Definition bootstrap_cur := bootstrap true.
 
 (** * core.setHeadAndSeq *)
 
@@ -287,8 +298,9 @@ Definition ops_started (self_ : Z) (genesis : peerset) (oracle_ : list Z) (ops :
 
 Definition recovered_g (guard : bool) (self_ : Z) (genesis : peerset) (oracle_ : list Z) (ops : list nop) (k : nat) : boot_result :=
   bootstrap guard self_ genesis oracle_ (crash_db self_ genesis oracle_ ops k).
-(* the code as it stands *)
-Definition recovered := recovered_g false.
+(* the code as it stands; the unguarded function is ProcessSigPool before fix d90db55 *)
+Definition recovered := recovered_g true.
+Definition recovered_unguarded := recovered_g false.
 
 (* the node as it was when the operations that had started at the crash had completed, and the
    events those operations had accepted (in insertion order) *)
